@@ -16,6 +16,7 @@
   RESET     a reused streaming encoder is reset before each block; bzip2/xz build a fresh encoder per block
 It does NOT decide equality of what is read back nor buffer-boundary arithmetic inside the C libraries.
 """
+import re
 from ..lib import *
 from ..inventory import natural_loops
 from ..core import short_loc, op_place, const_int
@@ -418,6 +419,11 @@ def consumed(ctx):
                 continue
             te = try_edges(b, bb)
             if te is None or te[1] is None or not all_paths_err(b, te[1]):
+                continue
+            # the buffer read into holds at least one byte (a read into an empty buffer returns 0 whatever is left)
+            bo = origin(b, t['args'][1])
+            sizes = [int(m) for fl_ in bo.flags if fl_.startswith('coerce:') for m in re.findall(r'\[u8; (\d+)\]->', fl_)]
+            if not sizes or min(sizes) < 1:
                 continue
             good = False
             for sbb in b.reachable_from(bb):
